@@ -552,10 +552,17 @@ def _reconnect_env(h, cls):
     it.models[id(threading.Thread)] = ModelFn("threading.Thread", thread_ctor)
     loop = Modelled("loop")
 
+    tasks, done_cbs = [], []
+
     def create_task(it2, a, k):
         log.append(("started",))
         it2.run_coro(a[0])  # what the task then runs
-        return Modelled("task")
+        t = Modelled("task")
+        t.attrs["add_done_callback"] = ModelFn("task.add_done_callback", lambda it3, aa, kk, _t=t: done_cbs.append((_t, aa[0])))
+        t.attrs["cancelled"] = ModelFn("task.cancelled", lambda it3, aa, kk: False)
+        t.attrs["done"] = ModelFn("task.done", lambda it3, aa, kk: True)
+        tasks.append(t)
+        return t
 
     loop.attrs["create_task"] = ModelFn("loop.create_task", create_task)
     it.models[id(asyncio.get_running_loop)] = ModelFn("get_running_loop", lambda it2, a, k: loop)
@@ -567,8 +574,29 @@ def _reconnect_env(h, cls):
     def ok(it2, a, k):
         return log == [("started",), ("connect-ran", tr)]
 
+    n_before = len(tasks)
+
+    def tracked(it2, a, k):
+        """asyncio flavour: stop() can only cancel the reconnect it can find, `transport.connect_task`.  The event loop
+        runs a finished task's done-callbacks in a later iteration, so callbacks registered on the tasks of EARLIER
+        losses may fire after the hook has run for this loss: let them, then the tracked task must be this loss's."""
+        if cls is not TR.AsyncTransport:
+            return True
+        if len(tasks) != n_before + 1:
+            return False
+        current = tasks[-1]
+        for t, cb in list(done_cbs):
+            if t is not current:
+                it2.call(cb, [t], {})
+        return tr.fields.get("connect_task") is current
+
     it.models[id(reconnect_started_once)] = ModelFn("reconnect_started_once", ok)
+    it.models[id(latest_reconnect_is_tracked)] = ModelFn("latest_reconnect_is_tracked", tracked)
     return tr
+
+
+def latest_reconnect_is_tracked():
+    return True
 
 
 import threading
@@ -583,7 +611,12 @@ def _reconnect_contract(cls, name):
         setup=lambda h: ([_reconnect_env(h, cls)], {}),
         raises={},
         # every reported loss starts exactly one reconnect, which runs the gateway's connect routine on this transport
-        ensures={"reconnect-started": lambda old, tr, result: reconnect_started_once()},
+        ensures={
+            "reconnect-started": lambda old, tr, result: reconnect_started_once(),
+            # ... and (asyncio) it is the one stop() will find and cancel, whatever late done-callbacks of the
+            # reconnects of earlier losses do: "after stop() there are no further reconnect attempts"
+            "reconnect-tracked": lambda old, tr, result: latest_reconnect_is_tracked(),
+        },
     )
     target = f"mysensors.transport:{cls.__name__}.__init__"
     return contract(target, props=["C20"], name=name)(type(name.replace("[", "_").replace("]", "").replace("-", "_"), (), ns))
